@@ -123,7 +123,7 @@ func (r *Report) Finish() int {
 	if r.WriteClaims {
 		var names []string
 		for _, v := range r.Verdicts {
-			if v.Status == "discharged" && v.Ms < 3000 && !strings.HasPrefix(v.Ob.Kind, "safety.") && v.Ob.Kind != "wframe" && v.Ob.Kind != "consistency" && v.Ob.Kind != "frame" {
+			if v.Status == "discharged" && v.Ms < 3000 && !strings.HasPrefix(v.Ob.Kind, "safety.") && v.Ob.Kind != "wframe" && v.Ob.Kind != "consistency" && v.Ob.Kind != "frame" && v.Ob.Kind != "pre" {
 				names = append(names, v.Ob.Name)
 			}
 		}
@@ -140,6 +140,39 @@ func (r *Report) Finish() int {
 					pre += "subtype@" + shortKey(fr.Contract.SubtypeOf) + "/"
 				}
 				names = append(names, pre+"consist#*")
+			}
+			if fr.Err == "" {
+				// preconditions of callees: one obligation per call site and clause. Call sites come and go
+				// with harmless edits (a removed call cannot violate anything, a new one must discharge), so
+				// they are claimed per callee by wildcard when every one of them discharges now
+				pre := shortOfKey(fr.Key) + "/"
+				if fr.Contract.SubtypeOf != "" {
+					pre += "subtype@" + shortKey(fr.Contract.SubtypeOf) + "/"
+				}
+				byCallee := map[string]bool{}
+				for _, v := range r.Verdicts {
+					if v.Ob.Kind != "pre" || !strings.HasPrefix(v.Ob.Name, pre+"pre@") {
+						continue
+					}
+					rest := strings.TrimPrefix(v.Ob.Name, pre)
+					callee, _, _ := strings.Cut(rest, "#")
+					ok, seen := byCallee[callee]
+					if !seen {
+						ok = true
+					}
+					byCallee[callee] = ok && v.Status == "discharged" && v.Ms < 3000
+				}
+				for _, callee := range sortedKeys(byCallee) {
+					if byCallee[callee] {
+						names = append(names, pre+callee+"#*")
+					} else {
+						for _, v := range r.Verdicts {
+							if v.Ob.Kind == "pre" && strings.HasPrefix(v.Ob.Name, pre+callee+"#") && v.Status == "discharged" && v.Ms < 3000 {
+								names = append(names, "?"+v.Ob.Name)
+							}
+						}
+					}
+				}
 			}
 			if fr.Contract.ModSet && fr.Err == "" {
 				// frame obligations exist per heap component the function touches: a later edit that
